@@ -146,7 +146,7 @@ def make_instance(rng, template, tmpdir, tag):
         if template == 'dfa-to-regexp':
             R = ref_dfa(rng, max_states=3, syms=rng.choice(['ab', 'xy', 'a']))
         elif template in ('dfa-hopfcroft', 'dfa-minimal'):
-            R = ref_dfa(rng, max_states=6, connected=True)
+            R = ref_dfa(rng, max_states=6, connected=rng.random() < 0.5)
         else:
             R = ref_dfa(rng, max_states=5, syms=rng.choice(['ab', 'abc', '01', 'a']))
         text, _, _ = txt.render_fa(R, 'dfa', None, layout(rng), rng)
